@@ -62,6 +62,10 @@ class Sym:
                 if a['k'] == 'assign' and 'use' in a['rv'] and 'const' in a['rv']['use'] and a['rv']['use']['const'].get('scalar') is not None \
                         and b['k'] == 'assign' and b['place']['local'] == 0 and 'ref' in b['rv'] and b['rv']['ref']['local'] == a['place']['local'] and not b['rv']['ref']['proj']:
                     return ('const', int(a['rv']['use']['const']['scalar'], 16))
+                # `&TABLE` (a named constant behind a promoted reference): the item itself
+                if a['k'] == 'assign' and 'use' in a['rv'] and 'const' in a['rv']['use'] and a['rv']['use']['const'].get('item') \
+                        and b['k'] == 'assign' and b['place']['local'] == 0 and 'ref' in b['rv'] and b['rv']['ref']['local'] == a['place']['local'] and not b['rv']['ref']['proj']:
+                    return self.const(a['rv']['use']['const'])
                 # `&Ordering::Greater`, `&None`: a reference to a field-less enum variant
                 if a['k'] == 'assign' and isinstance(a['rv'].get('agg'), dict) and a['rv']['agg'].get('variant') and not a['rv'].get('ops') \
                         and b['k'] == 'assign' and b['place']['local'] == 0 and 'ref' in b['rv'] and b['rv']['ref']['local'] == a['place']['local'] and not b['rv']['ref']['proj']:
